@@ -21,6 +21,7 @@ func runC07(c *Ctx) {
 	// ---- R1 interpreter: validate before run
 	c.rule("C07-R1", "MPT/GRD: in Interpreter.ExecuteRoute the route body (executeStatements) is unreachable from entry once the no-contract edges (route.InputType==nil, InputType is not a NamedType, type definition unknown) and the validator's err==nil edge are deleted: whenever a contract exists, every path to the body passed ValidateObjectAgainstTypeDef successfully (or returned a 4xx before)")
 	if er := c.mustFn("C07-R1", interpPkg, "Interpreter.ExecuteRoute"); er != nil {
+		var wrappers []*ssa.Function
 		var validates, noContractOK []ssa.Value
 		var inputNil []ssa.Value
 		eachInstr(er, func(_ *ssa.BasicBlock, _ int, ins ssa.Instruction) {
@@ -28,6 +29,16 @@ func runC07(c *Ctx) {
 			case *ssa.Call:
 				if callName(x) == interpPath+".TypeChecker.ValidateObjectAgainstTypeDef" {
 					validates = append(validates, x)
+				}
+				// a helper that returns a nil error only after validating (or when no contract applies) counts as the validator
+				if sf := staticFn(x); sf != nil && sf != er && sf.Pkg != nil && sf.Pkg.Pkg.Path() == interpPath && validationWrapper(c, sf) {
+					n := sf.Signature.Results().Len()
+					if n == 1 {
+						validates = append(validates, x)
+					} else {
+						validates = append(validates, extractOf(x, n-1)...)
+					}
+					wrappers = append(wrappers, sf)
 				}
 			case *ssa.UnOp:
 				if loadedFromField(x, "Route", "InputType") {
@@ -74,8 +85,45 @@ func runC07(c *Ctx) {
 		if n == 0 {
 			c.ob("C07-R1", interpPkg+".Interpreter.ExecuteRoute#runs-body", er.Pos(), false, "ExecuteRoute does not execute route.Body")
 		}
-		// failures are 4xx
+		// failures are 4xx (decided in the function that makes the validator call: ExecuteRoute or its wrapper)
+		for _, w := range wrappers {
+			eachInstr(w, func(_ *ssa.BasicBlock, _ int, ins ssa.Instruction) {
+				call, ok := ins.(*ssa.Call)
+				if !ok || callName(call) != interpPath+".TypeChecker.ValidateObjectAgainstTypeDef" {
+					return
+				}
+				for _, b := range w.Blocks {
+					for si, s := range b.Succs {
+						if nonNilOnEdge(b, si, call) {
+							q2 := &pathQuery{fn: w, target: func(x ssa.Instruction) bool {
+								st, ok := x.(*ssa.Store)
+								if !ok || !isStoreToField(st, "Response", "StatusCode") {
+									return false
+								}
+								k, ok := constInt(st.Val)
+								return ok && k >= 400 && k < 500
+							}}
+							h, _ := q2.from(s, 0)
+							c.ob("C07-R1", interpPkg+".Interpreter.ExecuteRoute#validation-failure-is-4xx", call.Pos(), h != nil, "a validation failure is not answered with a 4xx response")
+						}
+					}
+				}
+			})
+		}
 		for _, v := range validates {
+			if _, isCall := v.(*ssa.Call); !isCall || callName(v.(*ssa.Call)) != interpPath+".TypeChecker.ValidateObjectAgainstTypeDef" {
+				// a wrapper's error: the body must not run on it; the status was decided inside the wrapper
+				for _, b := range er.Blocks {
+					for si, s := range b.Succs {
+						if nonNilOnEdge(b, si, v) {
+							q := &pathQuery{fn: er, target: func(x ssa.Instruction) bool { return isCallTo(x, interpPath+".Interpreter.executeStatements") }}
+							hit, _ := q.from(s, 0)
+							c.ob("C07-R1", interpPkg+".Interpreter.ExecuteRoute#validation-failure-does-not-run-body", v.Pos(), hit == nil, "after a validation failure the body is still reachable")
+						}
+					}
+				}
+				continue
+			}
 			for _, b := range er.Blocks {
 				for si, s := range b.Succs {
 					if nonNilOnEdge(b, si, v) {
@@ -334,6 +382,26 @@ func runC07(c *Ctx) {
 	}
 	if f := c.fn(interpPkg, "Interpreter.ExecuteRoute"); f != nil {
 		interp = reached(f)
+		// boundary work may live in helpers of ExecuteRoute that are handed the route or the request (not in the
+		// evaluator, which is reached through the body and is not a boundary stage)
+		eachCall(f, func(call ssa.CallInstruction) {
+			sf := staticFn(call)
+			if sf == nil || sf.Pkg == nil || sf.Pkg.Pkg.Path() != interpPath {
+				return
+			}
+			takesRoute := false
+			for i := 0; i < sf.Signature.Params().Len(); i++ {
+				t := sf.Signature.Params().At(i).Type()
+				if typeIs(t, astPath, "Route") || typeIs(t, interpPath, "Request") {
+					takesRoute = true
+				}
+			}
+			if takesRoute && sf != f {
+				for k := range reached(sf) {
+					interp[k] = true
+				}
+			}
+		})
 	}
 	sort.Strings(stages)
 	for _, s := range stages {
@@ -730,4 +798,71 @@ func runC07(c *Ctx) {
 	routeLiteralFidelity(c, "C07-R9", "InputType", "parseType")
 	routeLiteralFidelity(c, "C07-R9", "ReturnType", "parseType")
 	routeLiteralFidelity(c, "C07-R9", "QueryParams", "parseQueryParamDecl")
+}
+
+
+// validationWrapper: fn reaches ValidateObjectAgainstTypeDef and, with the no-contract edges (InputType == nil, not a
+// NamedType, unknown type definition) and the validator's err==nil edge deleted, no return with a nil error is reachable:
+// a nil error from fn means "validated, or no contract applies".
+func validationWrapper(c *Ctx, fn *ssa.Function) bool {
+	res := fn.Signature.Results()
+	if res.Len() == 0 || !isErrorType(res.At(res.Len()-1).Type()) {
+		return false
+	}
+	var validates, noContractOK, inputNil []ssa.Value
+	eachInstr(fn, func(_ *ssa.BasicBlock, _ int, ins ssa.Instruction) {
+		switch x := ins.(type) {
+		case *ssa.Call:
+			if callName(x) == interpPath+".TypeChecker.ValidateObjectAgainstTypeDef" {
+				validates = append(validates, x)
+			}
+		case *ssa.UnOp:
+			if loadedFromField(x, "Route", "InputType") {
+				inputNil = append(inputNil, x)
+			}
+		case *ssa.TypeAssert:
+			if x.CommaOk && typeIs(x.AssertedType, astPath, "NamedType") {
+				noContractOK = append(noContractOK, extractOf(x, 1)...)
+			}
+		case *ssa.Lookup:
+			if x.CommaOk && loadedFromField(x.X, "Interpreter", "typeDefs") {
+				noContractOK = append(noContractOK, extractOf(x, 1)...)
+			}
+		}
+	})
+	if len(validates) == 0 {
+		return false
+	}
+	q := &pathQuery{fn: fn, target: func(x ssa.Instruction) bool {
+		r, ok := x.(*ssa.Return)
+		if !ok {
+			return false
+		}
+		vals := retVals(r)
+		return isNilConst(stripConv(vals[len(vals)-1]))
+	}, cutEdge: func(b *ssa.BasicBlock, si int) bool {
+		for _, v := range inputNil {
+			if nilOnEdge(b, si, v) {
+				return true
+			}
+		}
+		for _, v := range noContractOK {
+			if known, val := boolOnEdge(b, si, v); known && !val {
+				return true
+			}
+		}
+		for _, v := range validates {
+			if nilOnEdge(b, si, v) {
+				return true
+			}
+		}
+		return false
+	}}
+	hit, _ := q.fromEntry()
+	return hit == nil
+}
+
+func isErrorType(t types.Type) bool {
+	n, ok := t.(*types.Named)
+	return ok && n.Obj().Pkg() == nil && n.Obj().Name() == "error"
 }
